@@ -156,6 +156,8 @@ pub fn run_hist(ctx: &mut Ctx, rep: &mut Report, prop: &'static str, em: Emphasi
                     }
                 }
             }
+            for c in &w.cas { if c.objects.iter().any(|o| o.name.ends_with(".crl")) { rep.count("ca_steps_with_stray_crl", 1); if c.point_faults.contains(&PointFault::WrongHash) { rep.count("ca_steps_with_stray_crl_and_wrong_hash", 1); } } if c.point_faults.contains(&PointFault::WrongHash) { rep.count("ca_steps_with_wrong_hash", 1); } }
+            for c in &w.cas { if c.point_faults.contains(&PointFault::WrongHash) && c.objects.get(c.fault_target).map(|o| o.name.ends_with(".crl")).unwrap_or(false) { rep.count("steps_with_wrong_hash_on_stray_crl", 1); } }
             crate::clock::set_offset(offset);
             // C03: repeat the same step several times with different shuffles? The engine shuffles itself.
             let p = b.publish(&w);
@@ -290,7 +292,7 @@ pub const C04: Check = Check {
     shards: |_| 16,
     watchdog: |t| Duration::from_secs(t.pick(600, 3600)),
     budget: |t| Duration::from_secs(t.pick(40, 600)),
-    run: |c, r| run_hist(c, r, "C04", Emphasis::FetchFaults),
+    run: |c, r| run_hist(c, r, "C04", Emphasis::Mixed),
     crash_is_violation: false,
     finish: None,
 };
